@@ -28,7 +28,7 @@ def FLOORS(tier):
     q = tier == "quick"
     f = {"anc>=2": 200 if q else 5000, "reused-pair": 50 if q else 1000,
          "oracleA-checked": 600 if q else 20000, "oracleB-certificates": 150 if q else 3000,
-         "permuted-mapping": 100, "mapping-preset-before-terms": 60, "convert_solution-calls": 1000, "typed-coefficients": 60, "second-look-after-edit": 40}
+         "permuted-mapping": 100, "mapping-preset-before-terms": 60, "second-look-after-zero-write-only": 25, "convert_solution-calls": 1000, "typed-coefficients": 60, "second-look-after-edit": 40}
     for c in CLASSES:
         for fo in FORMS:
             f["cell:%s:%s" % (c, fo)] = 10 if q else 300
@@ -254,15 +254,28 @@ def case(ctx, rng, idx):
     if ok and not big and rng.random() < 0.3:
         # second look: the same object is edited in place and converted again -- nothing of the first conversion may linger
         ks = [k for k in M if len(k) >= 2]
+        zero_only = False
         try:
-            if ks and rng.random() < 0.5:
+            r_ = rng.random()
+            # a term whose variables all occur elsewhere too: removing it leaves the bookkeeping exact without a refresh
+            removable = [k for k in M if k and all(any(x in k2 for k2 in M if k2 != k) for x in k)]
+            if removable and r_ < 0.35:
+                kz = rng.choice(removable)
+                if rng.random() < 0.5:
+                    M[kz] = 0
+                else:
+                    M[kz] -= M[kz]
+                zero_only = True
+                ctx.cat("second-look-after-zero-write-only")
+            elif ks and r_ < 0.7:
                 M[rng.choice(ks)] *= rng.choice([-2, 0.5, 3])
             else:
                 labs = list(M.mapping)
                 M[tuple(rng.sample(labs, min(len(labs), rng.randint(3, 4))))] += rng.choice(gen.DYADIC)
         except KeyError:
             return
-        M.refresh()
+        if not zero_only:
+            M.refresh()
         if M.num_binary_variables == 0:
             return
         ctx.cat("second-look-after-edit")
